@@ -82,9 +82,9 @@ fn replay_cmp(doc: &Value, t: &mut Tally, window: u64) {
         let cp = (doc["cp"].as_u64().unwrap() + base) as u32;
         let got = guarded(|| {
             json!({
-                "eq": x == cp, "lt": x < cp, "le": x <= cp, "gt": x > cp, "ge": x >= cp,
+                "eq": x == cp, "ne": x != cp, "lt": x < cp, "le": x <= cp, "gt": x > cp, "ge": x >= cp,
                 "cmp": ord_name(x.partial_cmp(&cp)),
-                "meq": cp == x, "mlt": cp < x, "mle": cp <= x, "mgt": cp > x, "mge": cp >= x,
+                "meq": cp == x, "mne": cp != x, "mlt": cp < x, "mle": cp <= x, "mgt": cp > x, "mge": cp >= x,
                 "mcmp": ord_name(cp.partial_cmp(&x)),
             })
         });
@@ -110,9 +110,9 @@ fn replay_cmp(doc: &Value, t: &mut Tally, window: u64) {
         let cp = (mcp + cb) as u32;
         let got = guarded(|| {
             json!({
-                "eq": x == cp, "lt": x < cp, "le": x <= cp, "gt": x > cp, "ge": x >= cp,
+                "eq": x == cp, "ne": x != cp, "lt": x < cp, "le": x <= cp, "gt": x > cp, "ge": x >= cp,
                 "cmp": ord_name(x.partial_cmp(&cp)),
-                "meq": cp == x, "mlt": cp < x, "mle": cp <= x, "mgt": cp > x, "mge": cp >= x,
+                "meq": cp == x, "mne": cp != x, "mlt": cp < x, "mle": cp <= x, "mgt": cp > x, "mge": cp >= x,
                 "mcmp": ord_name(cp.partial_cmp(&x)),
             })
         });
@@ -146,11 +146,13 @@ fn replay_search(doc: &Value, t: &mut Tally, window: u64) {
 // two assignments of real strings to the model's abstract states.  In the second one each
 // string is a strict suffix of the previous one, so that the closure can answer with a
 // BORROWED sub-slice of its argument although the string changed.
-const STATE_STRINGS: [[&str; 6]; 3] = [
+const STATE_STRINGS: [[&str; 6]; 4] = [
     ["a", "\u{e9}", "\u{65e5}\u{672c}", "\u{1f600}x", "\u{df}\u{3b1}", "zz"],
     ["  \u{e9}\u{65e5}\u{1f600}q", " \u{e9}\u{65e5}\u{1f600}q", "\u{e9}\u{65e5}\u{1f600}q", "\u{65e5}\u{1f600}q", "\u{1f600}q", "q"],
     // the empty string is a string like any other (a rule function may map to it, be stable on it, or fail on it)
     ["\u{3000} ", "", "\u{1f600}", "anonymous", " ", "\u{a0}"],
+    // strings that share a multi-byte head and differ after it
+    ["\u{e9}\u{65e5}a", "\u{e9}\u{65e5}b", "\u{e9}\u{65e5}ab", "\u{e9}\u{65e5}", "\u{e9}\u{65e5}\u{e9}b", "\u{e9}\u{65e5}ba"],
 ];
 
 fn stab_err(name: &str) -> Error {
